@@ -366,14 +366,15 @@ static void fixed_cases() {
     }
 }
 
-static int g_perShape = 0;
+static int g_perShape = 0, g_random = 0;
 static const int kFixed = 2;   // case 0: probes + ctor, case 1: fixed histories
 
 long verif::verif_ncases(const std::string & tier) {
     if (tier == "thorough") build_spaces(2, 4, 4); else build_spaces(2, 3, 3);
-    g_perShape = tier == "thorough" ? 12 : 14;
+    g_perShape = tier == "thorough" ? 30 : 40;
+    g_random = tier == "thorough" ? 900 : 90;     // larger random shapes: 2..6 factors of sizes 1..5
     run_probes();
-    return kFixed + (long)g_spaces.size() * g_perShape;
+    return kFixed + (long)g_spaces.size() * g_perShape + g_random;
 }
 
 void verif::verif_case(Rng & rng, long idx, const std::string & tier) {
@@ -386,9 +387,16 @@ void verif::verif_case(Rng & rng, long idx, const std::string & tier) {
     }
     if (idx == 1) { fixed_cases(); return; }
     long k = idx - kFixed;
-    const auto & sp = g_spaces[k / g_perShape];
-    int sub = (int)(k % g_perShape);
     const int maxOps = tier == "thorough" ? 400 : 60;
+    F::Factors rsp;
+    if (k >= (long)g_spaces.size() * g_perShape) {
+        size_t n = (size_t)rng.range(2, 6);
+        rsp.resize(n);
+        for (auto & d : rsp) d = (size_t)rng.range(1, 5);
+        std::printf("#stat random_shape_%s 1\n", firstIsSmallest(rsp) ? "first_smallest" : "first_not_smallest");
+    }
+    const auto & sp = rsp.empty() ? g_spaces[k / g_perShape] : rsp;
+    int sub = rsp.empty() ? (int)(k % g_perShape) : (int)rng.below(g_perShape);
     // most histories are short-to-medium; one per shape goes to the limit
     int cap = sub == 0 ? maxOps : (int)rng.range(12, std::max(13, maxOps / 2));
     if (sub < g_perShape / 2) trie_case(rng, sp, cap);
